@@ -14,7 +14,7 @@ import os, sys, json, subprocess, shutil, time, glob
 HERE = os.path.dirname(os.path.abspath(__file__))
 VERIF = os.path.dirname(HERE)
 REPO = "/repo"
-SCRATCH = "/tmp/verif_selftest"
+SCRATCH = "/tmp/verif_selftest_%d" % os.getpid()      # per process: two self-tests may run at the same time
 
 
 def sh(cmd, **kw):
@@ -89,6 +89,10 @@ def mutants(filters):
             shutil.rmtree(wt, ignore_errors=True)
         json.dump(results, open(res_path, "w"), indent=1, sort_keys=True)
     shutil.rmtree(os.path.join(SCRATCH, "work"), ignore_errors=True)
+    if ok_all:
+        shutil.rmtree(SCRATCH, ignore_errors=True)
+    else:
+        print("logs of missed changes kept under", SCRATCH)
     return 0 if ok_all else 1
 
 
